@@ -44,7 +44,13 @@ def lin(e, depth=0):
     if tag == 'const':
         c = e[1]
         if 'v' in c and c['v'] != -1:
-            return ({}, c['v'])
+            v = c['v']
+            if isinstance(v, str):
+                try:
+                    v = int(v)
+                except ValueError:
+                    return ({atom(e): 1}, 0)
+            return ({}, v)
         if 'us' in c:
             return ({}, int(c['us']))
         return ({atom(e): 1}, 0)
